@@ -12,6 +12,7 @@ RULE = ("bounded-exhaustive enumeration: output side = every limb count 1..L x {
         "mpn_set_str, every string of <=3 characters over a 24-character alphabet (valid/invalid decision, prefixes, case rules, white space) in "
         "bases 0,2,8,10,16,36,37,62, mpq_set_str forms; pinned thresholds and run-time-threshold floor vector (GET_STR_DC 4, SET_STR_DC 100). "
         "Oracle: Python divide-and-conquer digit conversion. distinct_nontrivial = distinct (function, base, size/length, pattern) tuples.")
+RULE = RULE + (" " + 'Later additions: every byte value 1..255 in seven short templates for mpz_set_str/init_set_str and mpz_inp_str in every base; mpz_sizeinbase on b^k and b^k-1 for every k up to 2600 and four huge k in every base.')
 ASSUMPTIONS = ["Python integer divmod/pow based digit conversion is the reference model",
                "strings on which the manual is silent (white space after a minus sign or inside a prefix, '+' signs, a bare 0x/0b prefix) are not generated"]
 BUDGET = {"quick": 420, "thorough": 3300}
